@@ -183,12 +183,11 @@ int check_for_sequences(struct msa* msa)
         if(!msa){
                 ERROR_MSG("No sequences were found in the input files or standard input.");
         }
-        if(msa->numseq < 2){
-                if(msa->numseq == 0){
-                        ERROR_MSG("No sequences were found in the input files or standard input.");
-                }else if (msa->numseq == 1){
-                        ERROR_MSG("Only 1 sequence was found in the input files or standard input");
-                }
+        /* One sequence so far is not an error: this runs after every input
+           file and more files may follow. kalign_run rejects fewer than two
+           sequences once everything has been read. */
+        if(msa->numseq == 0){
+                ERROR_MSG("No sequences were found in the input files or standard input.");
         }
         return OK;
 ERROR:
